@@ -57,15 +57,19 @@ pub fn has_degenerate(n: &MNode) -> bool {
     })
 }
 
-/// two number tokens side by side in one element (a number split without separators)
+/// two number tokens side by side in one element (a number split without separators); single-child
+/// rows / wrappers around a number count as the number
 pub fn has_adjacent_mn(n: &MNode) -> bool {
-    n.any(&|k| k.kids.windows(2).any(|w| w[0].tag == "mn" && w[1].tag == "mn"))
+    fn numberish(k: &MNode) -> bool {
+        k.tag == "mn" || (["mrow", "mstyle", "mpadded"].contains(&k.tag.as_str()) && k.kids.len() == 1 && numberish(&k.kids[0]))
+    }
+    n.any(&|k| k.kids.windows(2).any(|w| numberish(&w[0]) && numberish(&w[1])))
 }
 
-/// an mstyle/mpadded with several children among which >= 3 single-character mi's in a row
-/// (merge_mi_sequence may join them into a word while the wrapper is being turned into an mrow)
+/// an mstyle/mpadded with several children: it is renamed to mrow and cleaned again, and when the merging
+/// heuristics (letter runs -> word, digits + separators -> number) leave it one child the lifting loses content
 pub fn has_mi_run_in_wrapper(n: &MNode) -> bool {
-    n.any(&|k| (k.tag == "mstyle" || k.tag == "mpadded") && k.kids.windows(3).any(|w| w.iter().all(|m| m.tag == "mi" && m.txt().chars().count() == 1)))
+    n.any(&|k| (k.tag == "mstyle" || k.tag == "mpadded") && k.kids.len() >= 2)
 }
 
 /// Input classes for which clean_mathml is known to misbehave (one known finding per class, see
@@ -79,7 +83,7 @@ pub fn input_trigger(input: &MNode) -> Option<&'static str> {
     } else if has_adjacent_mn(input) {
         Some("adjacent-mn")
     } else if has_mi_run_in_wrapper(input) {
-        Some("mi-run-in-wrapper")
+        Some("multi-child-wrapper")
     } else if input.tokens().iter().any(|t| lookalike.is_match(t.txt())) {
         // repaired by a fix: commit (listed as fixed): named last so that it never hides another class
         Some("text-resembling-markup")
